@@ -138,11 +138,11 @@ func (e *Engine) bindByName(st *State, fr *Frame, inv *ssa.Function) []Val {
 			}
 			args = append(args, v)
 		default:
-			id, ok := fr.named[n]
+			v, ok := e.lookupName(st, fr, n)
 			if !ok {
 				fail("invariant %s: no local named %s in %s", inv.Name(), n, fr.fn.Name())
 			}
-			args = append(args, st.cells[id])
+			args = append(args, v)
 		}
 	}
 	return args
@@ -166,7 +166,11 @@ func (e *Engine) enterLoopHeader(st *State, fr *Frame, h *ssa.BasicBlock, ord in
 	}
 	if back && fr.inLoop[h] {
 		if hook := fr.fn.Pkg.Func(fmt.Sprintf("vc_hook_loopstep_%s_%d", contractStem(fr.fn), ord)); hook != nil {
+			feasibleBefore := e.inc.Sat(st.pc)
 			hs := e.execFunc(st, hook, e.bindByName(st, fr, hook), nil, fr.depth+1)
+			if len(hs) == 0 && feasibleBefore {
+				fail("loop-step hook %s has no feasible path on a feasible iteration (vacuity guard)", hook.Name())
+			}
 			// the hook may branch: close the back edge on each of its paths
 			for _, o := range hs {
 				g := e.evalContract(o.st, inv, e.bindByName(o.st, fr, inv), false)
@@ -212,7 +216,9 @@ func (e *Engine) enterLoopHeader(st *State, fr *Frame, h *ssa.BasicBlock, ord in
 		if t == nil {
 			fail("no type for cell %s", n)
 		}
+		st.noPre = true // a local may point to memory allocated by this call in an earlier iteration
 		st.cells[id] = st.freshVal(t, n)
+		st.noPre = false
 	}
 	_ = heapW
 	fx := e.loopEffectsOf(fr.fn, h)
@@ -276,7 +282,7 @@ func (e *Engine) enterLoopHeader(st *State, fr *Frame, h *ssa.BasicBlock, ord in
 	for id, ob := range st.objs {
 		if m, ok := ob.(*MapObj); ok {
 			ks := sortOf(&Term{W: m.KeyW})
-			st.objs[id] = &MapObj{Dom: SymSort(fresh("mapdom"), "(Array "+ks+" Bool)"), Vals: map[string]*Term{}, KeyW: m.KeyW, ValT: m.ValT}
+			st.objs[id] = &MapObj{Dom: SymSort(fresh("mapdom"), "(Array "+ks+" Bool)"), Vals: map[string]*Term{}, KeyW: m.KeyW, ValT: m.ValT, Own: m.Own}
 		}
 	}
 	if bufW {
@@ -300,7 +306,7 @@ func (e *Engine) enterLoopHeader(st *State, fr *Frame, h *ssa.BasicBlock, ord in
 // ---------- vspec primitives ----------
 
 func (e *Engine) vspecCall(st *State, fr *Frame, name string, args []Val) ([]Outcome, bool) {
-	one := func(v ...Val) ([]Outcome, bool) { return []Outcome{{st, v}}, true }
+	one := func(v ...Val) ([]Outcome, bool) { return []Outcome{{st: st, ret: v}}, true }
 	txt := func(v Val) []Piece {
 		switch x := v.(type) {
 		case TextV:
@@ -444,6 +450,24 @@ func (e *Engine) vspecCall(st *State, fr *Frame, name string, args []Val) ([]Out
 		a, _ := e.textOf(st, s)
 		e.installUnfold(st)
 		return one(MatchText(a, txt(args[1])))
+	case "Owned":
+		// x (a slice or pointer) is nil or memory allocated by the current call
+		var ref *Term
+		v := args[0]
+		if iv, ok := v.(IfaceV); ok {
+			v = iv.V
+		}
+		switch x := v.(type) {
+		case SliceV:
+			ref = x.Base
+		case PtrHeap:
+			ref = x.Ref
+		case NilV:
+			return one(tTrue)
+		default:
+			fail("vspec.Owned of %T", v)
+		}
+		return one(Or(Eq(ref, BVu(0, 64)), ULt(alloc0, ref)))
 	case "Fresh":
 		out := args[0].(SliceV)
 		return one(Or(Eq(out.Base, BVu(0, 64)), ULt(alloc0, out.Base)))
@@ -510,7 +534,5 @@ func (e *Engine) eqBytes(st *State, a, b SliceV) *Term {
 	if arrA.String() == arrB.String() && a.Off.String() == b.Off.String() {
 		return Eq(a.Len, b.Len)
 	}
-	k := BoundVar(fresh("k"), 64)
-	body := Implies(And(SLe(BVu(0, 64), k), SLt(k, a.Len)), Eq(Select(arrA, Add(a.Off, k), 8), Select(arrB, Add(b.Off, k), 8)))
-	return And(Eq(a.Len, b.Len), Forall(k, body))
+	return And(Eq(a.Len, b.Len), contentEq(arrA, a.Off, arrB, b.Off, a.Len))
 }
